@@ -30,6 +30,10 @@ def run_property(prop: str, repo: str, tier: str, evidence_dir=None, quiet=False
     res: Result = mod.run(ctx)
     res.dedupe()
     stats = ctx.stats()
+    # positive control: a breaking in-memory variant of the repository must make its rule fire on this very run
+    from . import selftest as ST
+
+    res.controls.append(ST.positive_control(prop, repo))
 
     # floors: analysing less than what was confirmed by hand is an analysis error, not a pass
     floors = load_floors().get(prop, {})
@@ -60,8 +64,8 @@ def run_property(prop: str, repo: str, tier: str, evidence_dir=None, quiet=False
             violations.append(o)
 
     selftest = None
-    if tier == "thorough" and hasattr(mod, "selftest"):
-        selftest = mod.selftest(ctx)
+    if tier == "thorough":
+        selftest = ST.matrix(prop, repo, jobs=int(os.environ.get("VERIF_JOBS", "16")))
 
     wall = time.time() - t0
     level_text = getattr(mod, "LEVEL_TEXT", "static structural rules over the AST / CFG / kind annotations of the current source tree")
